@@ -9,7 +9,7 @@ if not os.path.exists(wt):
     subprocess.check_call(["git", "-C", "/repo", "worktree", "add", "-q", "--detach", wt, "HEAD"])
 d = [json.loads(l) for l in open("/verif/properties.jsonl")]
 d = [x for x in d if x["id"] == pid][0]
-letters = {1: "abcdef", 2: "cdefgh", 3: "efghij", 4: "ghijkl", 5: "ijklmn", 6: "klmnop"}[WAVE][:n]
+letters = {1: "abcdef", 2: "cdefgh", 3: "efghij", 4: "ghijkl", 5: "ijklmn", 6: "klmnop", 7: "mnopqr"}[WAVE][:n]
 anch = d["anchors"]
 mech = "\n".join(f"  - {m['name']} ({m['where']})" for m in anch.get("mechanism", []))
 state = "\n".join(f"  - {m['name']}: {m.get('meaning','')} ({m['where']})" for m in anch.get("state", []))
@@ -56,6 +56,7 @@ the property.
 {"FOURTH round: also used up by now: dependence on the dtype / container / memory layout of an argument, float32 inputs, narrow-integer overflow. Look elsewhere once more: a non-default value of an OPTIONAL argument (return_edge_removal=True, all_solutions / n_solutions combinations, early_stopping, shortest_edges_only, use_point_averages, shift_vertices, real=False, directions / arrow options, return_points ...), the SMALLEST sizes of the quantified domain (2 seed points, n = 2, a single plaquette, one edge), the LAST plaquette / last edge / last vertex, a wrong EXCEPTION TYPE or a swallowed exception, a result that is right but returned in another ORDER or with another SHAPE (row vs column, (n,) vs (n,1)), two koala functions that must agree with each other (a helper and a table, a plot helper and the function it visualises), numerical cancellation at exactly representable coordinates." if WAVE > 3 else ""}
 {"FIFTH round: also used up: non-default optional arguments, smallest sizes, last/first element, 0-d vs 1-d shapes, keyword-vs-positional calls, island components, ints-vs-floats returned by user callbacks. Ideas not yet tried: a fault that needs TWO independent features at once (open boundary AND parallel edges; odd size AND rectangular; a pinched face AND a dangling edge; shift_vertices AND a seed on the cell boundary), integer division / modulo of NEGATIVE numbers, boolean-mask vs integer-index confusion, np.unique / np.sort / argsort semantics (axis argument, stability, return_inverse shape), off-by-one at the UPPER end of the quantified ranges (the largest sizes / sample counts named in the quantifier), idempotence (calling the same operation twice on its own output), an attribute cached ON the lattice object by one function and read by another, behaviour that differs between a view and a copy returned to the caller (aliasing of RESULTS with internal state, so that mutating a returned array corrupts later calls)." if WAVE > 4 else ""}
 {"SIXTH round: also used up: results aliasing internal state, caches keyed on the lattice, arguments rescaled in place, comparisons modulo the unit cell, out= into an argument, np.unique misuse. Try what is left: faults that appear only for inputs with a particular GEOMETRY rather than a particular topology (a vertex exactly on the cell boundary x=0 or y=0, positions at exactly 0.5, an edge exactly horizontal or vertical, edge vectors of exactly equal length or exactly opposite angles, collinear consecutive edges (a straight angle inside a plaquette), a very thin or very small plaquette, coordinates close to 1.0), faults in the handling of the CROSSING vector sign for edges listed as (high index, low index) rather than (low, high), faults that need an edge whose two ends are the same vertex image across the boundary in a 1-wide cell (self-neighbour through periodicity) or size-1 / size-2 systems where a vertex meets its own image, wrong results only when the input arrays are NOT sorted the way the generators emit them (edges in random order, plaquette edges listed from a different start), accumulated floating-point error replacing an exact integer/boolean decision (np.isclose with a loose tolerance, rounding via astype(int) of a negative float, np.round half-to-even), sign(0) / arctan2(0, -1) / -0.0 corner cases, and numerical identities that hold only for |value| = 1 couplings or symmetric J (Jx=Jy=Jz) so that random J exposes them." if WAVE > 5 else ""}
+{"SEVENTH round (one change only, make it count): six rounds have used up the mechanisms listed above and, in the sixth, tiny/thin plaquettes, thresholds a hair away from a vertex coordinate, cells one site wide, shallow crossing angles, orderings with wrap-around indices, results that are square arrays, **kwargs callbacks, code paths that depend on whether a lazily computed attribute is already populated. Pick the change you believe is MOST LIKELY TO ESCAPE a thorough randomized + exhaustive-small-case checker that knows the property text: think about rare combinations (three features at once), about inputs at the far end of the quantified ranges, about faults that self-cancel in every symmetric or regular input and show only in irregular ones (or the reverse: only in highly symmetric inputs with exact ties), about clauses of the statement that sound like consequences of other clauses but are not, and about behaviour after an exception was raised and caught by the caller. It must still be a realistic maintainer slip and must break the statement for some input INSIDE the quantifier." if WAVE > 6 else ""}
 
 For each change (call them {', '.join(letters)}) write into {wt}/out/<letter>/ :
  - patch.diff  (`git diff` in the worktree with only that change applied)
